@@ -458,6 +458,12 @@ func zzvVectorSpec(name string, s0, s1, d0, vccIn uint64) zzvVRes {
 		r.d = verif.Ite64(a > b, a, b)
 	case "v_cndmask_b32_e32":
 		r.d = verif.Ite64(vccIn != 0, b, a)
+	case "v_add_u32_nc": // opcodes 52..54: the carry-less forms
+		r.d = lo(a + b)
+	case "v_sub_u32_nc":
+		r.d = lo(a - b)
+	case "v_subrev_u32_nc":
+		r.d = lo(b - a)
 	case "v_add_u32_e32": // opcode 25 in the shared table: carry-out to VCC
 		sum := a + b
 		r.d, r.bit, r.setsBit = lo(sum), sum>>32, true
@@ -478,16 +484,36 @@ func zzvVectorSpec(name string, s0, s1, d0, vccIn uint64) zzvVRes {
 	return r
 }
 
+// zzvVOP2SpecName: the spec key of a VOP2 row (opcodes 52..54 reuse the
+// mnemonics of 25..27 but do not produce a carry).
+func zzvVOP2SpecName(r *insts.InstType) string {
+	switch int(r.Opcode) {
+	case 52:
+		return "v_add_u32_nc"
+	case 53:
+		return "v_sub_u32_nc"
+	case 54:
+		return "v_subrev_u32_nc"
+	}
+	if r.Opcode > 30 {
+		return ""
+	}
+	return r.InstName
+}
+
 // VerifVectorSpec (C03): VOP2 integer/logic core per lane on both ALUs.
 func VerifVectorSpec() {
 	gcn3 := verif.Choice(2) == 0
 	var rows []*insts.InstType
 	for _, r := range zzvVRows {
-		if r.Format.FormatType == insts.VOP2 && r.Opcode <= 30 && zzvVectorSpec(r.InstName, 0, 0, 0, 0).known {
+		if r.Format.FormatType == insts.VOP2 && zzvVectorSpec(zzvVOP2SpecName(r), 0, 0, 0, 0).known {
 			rows = append(rows, r)
 		}
 	}
 	row := rows[verif.Choice(len(rows))]
+	if gcn3 && row.Opcode >= 52 {
+		return // the carry-less forms are gfx9 opcodes; GCN3 does not define them
+	}
 	inst := zzvEncodeVector(row, !gcn3)
 	if inst == nil {
 		return
@@ -529,7 +555,7 @@ func VerifVectorSpec() {
 		s0 := uint64(zzvLE32(l.regs[4*zzvRSrc0:]))
 		s1 := uint64(zzvLE32(l.regs[4*zzvRSrc1:]))
 		d0 := uint64(zzvLE32(l.regs[4*zzvRDst:]))
-		sp := zzvVectorSpec(row.InstName, s0, s1, d0, zzvB2U(l.vcc))
+		sp := zzvVectorSpec(zzvVOP2SpecName(row), s0, s1, d0, zzvB2U(l.vcc))
 		got := uint64(zzvLE32(r.wf.VRegFile[lane*1024+4*zzvRDst:]))
 		verif.Assert(got == verif.Ite64(l.exec, sp.d, d0), "vector destination differs from the ISA (or an inactive lane was written): "+tag)
 		if sp.setsBit {
@@ -538,8 +564,8 @@ func VerifVectorSpec() {
 	}
 	if anyBit {
 		// carry-out forms: VCC bit of an active lane = carry, inactive lanes' bits = 0 (the mask is rebuilt)
-		sa := zzvVectorSpec(row.InstName, uint64(zzvLE32(la.regs[4*zzvRSrc0:])), uint64(zzvLE32(la.regs[4*zzvRSrc1:])), 0, zzvB2U(la.vcc))
-		sb := zzvVectorSpec(row.InstName, uint64(zzvLE32(lb.regs[4*zzvRSrc0:])), uint64(zzvLE32(lb.regs[4*zzvRSrc1:])), 0, zzvB2U(lb.vcc))
+		sa := zzvVectorSpec(zzvVOP2SpecName(row), uint64(zzvLE32(la.regs[4*zzvRSrc0:])), uint64(zzvLE32(la.regs[4*zzvRSrc1:])), 0, zzvB2U(la.vcc))
+		sb := zzvVectorSpec(zzvVOP2SpecName(row), uint64(zzvLE32(lb.regs[4*zzvRSrc0:])), uint64(zzvLE32(lb.regs[4*zzvRSrc1:])), 0, zzvB2U(lb.vcc))
 		// the VCC bit of an active lane is its carry/borrow (bits of inactive lanes are not constrained here)
 		gotA, gotB := (r.wf.VCC()>>uint(a))&1, (r.wf.VCC()>>uint(b))&1
 		verif.Assert(verif.And(verif.Implies(la.exec, gotA == sa.bit&1), verif.Implies(lb.exec, gotB == sb.bit&1)), "carry/borrow bit in VCC differs from the ISA: "+tag)
@@ -1100,5 +1126,116 @@ func VerifVOP3Spec() {
 	}
 	verif.Assert(frame, "a register other than the destination changed: "+tag)
 	verif.Assert(verif.And(r.wf.VCC() == vcc0, verif.And(r.wf.EXEC() == exec0, verif.And(r.wf.SCC() == scc, verif.And(r.wf.M0 == m0, r.wf.PC() == pc)))), "VCC, EXEC, SCC, M0 or PC changed: "+tag)
+	verif.Cover("checked")
+}
+
+// VerifDSSpec (C03): the LDS instructions both ALUs implement
+// (ds_write_b32/b8, ds_write2_b32/b64, ds_read_b32/b64, ds_read2_b32/b64) on
+// two lanes with their own (concrete, distinct) addresses, symbolic data and
+// symbolic LDS contents: writes put exactly the data bytes at address + scaled
+// offset(s) and nothing else changes in the LDS; reads return exactly those
+// bytes; inactive lanes neither write LDS nor receive data.
+func VerifDSSpec() {
+	gcn3 := verif.Choice(2) == 0
+	type dsop struct {
+		op, size, scale int
+		two, read      bool
+	}
+	ops := []dsop{{13, 4, 1, false, false}, {14, 4, 4, true, false}, {30, 1, 1, false, false}, {54, 4, 1, false, true},
+		{55, 4, 4, true, true}, {78, 8, 8, true, false}, {118, 8, 1, false, true}, {119, 8, 8, true, true}}
+	o := ops[verif.Choice(len(ops))]
+	var row *insts.InstType
+	for _, r := range zzvVRows {
+		if r.Format.FormatType == insts.DS && int(r.Opcode) == o.op {
+			row = r
+		}
+	}
+	if row == nil {
+		return
+	}
+	inst := zzvEncodeVector(row, !gcn3)
+	if inst == nil {
+		return
+	}
+	a := []int{0, 31, 32, 63}[verif.Choice(verif.Param("specLanes", 4))]
+	b := (a + 37) % 64
+	la, lb := zzvNewLane(0x10), zzvNewLane(0x60)
+	lds0 := verif.Bytes(256)
+	exec0 := zzvBit(la.exec, a) | zzvBit(lb.exec, b)
+	fill := func(wf *emu.Wavefront, lds []byte) {
+		copy(wf.VRegFile[a*1024:], la.regs)
+		copy(wf.VRegFile[b*1024:], lb.regs)
+		copy(lds, lds0)
+		wf.SetEXEC(exec0)
+	}
+	tag := "ds." + row.InstName
+	if gcn3 {
+		tag = "gcn3 " + tag
+	} else {
+		tag = "cdna3 " + tag
+	}
+	r := zzvExec(gcn3, inst, map[uint64]uint8{}, fill)
+	verif.Assert(r.fault == "", "memory fault while executing "+tag)
+	if r.fault != "" {
+		return
+	}
+	if r.notImplemented {
+		verif.Cover("not implemented: " + tag)
+		return
+	}
+	off0, off1 := int(inst.Offset0)*o.scale, int(inst.Offset1)*o.scale
+	lanes := []int{a, b}
+	// expected LDS: start from the initial contents, apply the active lanes' writes in lane order
+	want := make([]byte, 256)
+	copy(want, lds0)
+	okRead := true
+	for li, l := range []*zzvLane{la, lb} {
+		base := int(l.addr)
+		if !o.read {
+			for k := 0; k < o.size; k++ {
+				want[base+off0+k] = verif.Ite8(l.exec, l.regs[4*zzvRData+k], want[base+off0+k])
+				if o.two {
+					want[base+off1+k] = verif.Ite8(l.exec, l.regs[4*zzvRSrc2+k], want[base+off1+k])
+				}
+			}
+			continue
+		}
+		for k := 0; k < o.size; k++ {
+			got := r.wf.VRegFile[lanes[li]*1024+4*zzvRDst+k]
+			okRead = verif.And(okRead, got == verif.Ite8(l.exec, lds0[base+off0+k], l.regs[4*zzvRDst+k]))
+			if o.two {
+				got2 := r.wf.VRegFile[lanes[li]*1024+4*zzvRDst+o.size+k]
+				okRead = verif.And(okRead, got2 == verif.Ite8(l.exec, lds0[base+off1+k], l.regs[4*zzvRDst+o.size+k]))
+			}
+		}
+	}
+	verif.Assert(okRead, "LDS read returned other bytes than those at address + offset (or an inactive lane was written): "+tag)
+	okLDS := true
+	for i := range want {
+		okLDS = verif.And(okLDS, r.lds[i] == want[i])
+	}
+	verif.Assert(okLDS, "LDS contents after the instruction differ from the ISA (wrong address, offset scaling, size, or an inactive lane wrote): "+tag)
+	frame := true
+	nd := 0
+	if o.read {
+		nd = o.size
+		if o.two {
+			nd *= 2
+		}
+	}
+	for _, lane := range lanes {
+		src := la
+		if lane == b {
+			src = lb
+		}
+		for i := 0; i < 4*zzvRTop; i++ {
+			if i >= 4*zzvRDst && i < 4*zzvRDst+nd {
+				continue
+			}
+			frame = verif.And(frame, r.wf.VRegFile[lane*1024+i] == src.regs[i])
+		}
+	}
+	verif.Assert(frame, "a register other than the destination changed: "+tag)
+	verif.Assert(r.wf.EXEC() == exec0, "EXEC changed: "+tag)
 	verif.Cover("checked")
 }
